@@ -44,6 +44,7 @@ NFUNC = 16
 SINGLE_BUMP = True
 ARGSPEC = {1: ["arg1"], 2: ["arg1/i32"], 3: ["arg1", "arg2"], 4: ["arg1/i32", "arg2/i32"], 9: ["arg1/i16"]}
 RETSPEC = {5: "retval", 6: "retval/i32", 3: "retval"}
+NOTRACE = (12, 13)          # UFTRACE_FILTER=!f12;!f13 (-N): these calls sit on the return stack with MCOUNT_FL_NORECORD
 
 
 def spec_size(s):
@@ -69,7 +70,7 @@ def ret_payload(k, rv):
 
 
 def prod_env(with_args):
-    env = {}
+    env = {"UFTRACE_FILTER": ";".join("!f%d" % k for k in NOTRACE)}
     if with_args:
         env["UFTRACE_ARGUMENT"] = ";".join("f%d@%s" % (k, ",".join(v)) for k, v in sorted(ARGSPEC.items()))
         env["UFTRACE_RETVAL"] = ";".join("f%d@%s" % (k, v) for k, v in sorted(RETSPEC.items()))
@@ -84,11 +85,14 @@ def gen_case(rng, boundary=None):
     ops, stack, t = [], [], 1000
     for _ in range(nops):
         t += rng.randrange(1, 50)
-        if stack and (rng.random() < 0.45 or len(stack) >= 7):
+        if stack and (rng.random() < 0.45 or len(stack) >= 7 or stack[-1] in NOTRACE):
+            # (nothing is called from inside a -N function: such calls get no return-stack frame at all)
+            if stack[-1] in NOTRACE and rng.random() < 0.25 and _ == nops - 1:
+                break               # the history ends inside the -N function: it is the innermost frame when the process dies
             k = stack.pop()
             ops.append(("X", t, rng.randrange(1 << 40)))
         else:
-            k = rng.randrange(NFUNC) if with_args else rng.choice([0, 7, 8, 10, 11])
+            k = rng.randrange(NFUNC) if with_args else rng.choice([0, 7, 8, 10, 11, 12, 12])
             stack.append(k)
             ops.append(("E", k, t, rng.randrange(1 << 48), rng.randrange(1 << 32)))
     mode = rng.choice(["kill", "kill", "kill", "kill", "segv", "abrt", "exit", "end"])
@@ -170,7 +174,7 @@ def coq_ops(c, f0):
             k = o[1]
             stack.append(k)
             pl = arg_payload(k, o[3], o[4]) if c["args"] else b""
-            out.append("OEnter %d %d %s" % (f0 + 256 * k + 4, o[2], coq_bytes(pl)))
+            out.append("OEnter %d %d %s %s" % (f0 + 256 * k + 4, o[2], coq_bytes(pl), coq.coq_bool(k in NOTRACE)))
         else:
             k = stack.pop()
             pl = ret_payload(k, o[2]) if c["args"] else b""
@@ -260,6 +264,16 @@ def store_cases(ctx):
         c["sync"] = [False, False, e % 2 == 1, False]
         c["e"] = e
         cases.append(c)
+    # the innermost frame is a -N function (MCOUNT_FL_NORECORD), its callers' ENTRYs are not written yet
+    for mode in ("segv", "abrt", "kill", "exit"):
+        for args in (False, True):
+            ops = [("E", 0, 1010, 1, 2), ("E", 1 if args else 7, 1020, 3, 4), ("E", 3 if args else 8, 1030, 5, 6),
+                   ("E", 12, 1040, 7, 8)]
+            cases.append({"cap": 4080, "args": args, "mode": mode, "ops": ops, "sync": [False] * 4,
+                          "e": 0 if mode == "kill" else None, "directed": "norecord-innermost"})
+            ops2 = [("E", 0, 1010, 1, 2), ("E", 10, 1020, 0, 0), ("X", 1030, 0)] + [(o[0], o[1], o[2] + 100, o[3], o[4]) for o in ops[1:]]
+            cases.append({"cap": 64, "args": args, "mode": mode, "ops": ops2, "sync": [False, False, True, False, False, False],
+                          "e": 0 if mode == "kill" else None, "directed": "norecord-innermost"})
     cases += shrink_cases()
     for _ in range(ctx.n(70, 1200)):
         cases.append(gen_case(rng))
